@@ -9,6 +9,7 @@ import (
 
 	"github.com/openconfig/goyang/pkg/yang"
 	"verifharness/core"
+	"verifharness/fam/schema"
 )
 
 func init() {
@@ -158,6 +159,10 @@ func (p *prog) leafAt(site string) string {
 }
 
 // texts renders the fixed skeleton of scopes with the program's typedefs and leaf.
+// samePrefix: module b (and its submodule) declare for themselves the prefix module a declares for itself ("a");
+// what a module calls itself is its own business, importers still say b
+var samePrefix bool
+
 func (p *prog) texts() map[string]string {
 	// module y declares the prefix "b" for itself and is imported (as yy) before b: a reference b:t must not end up there
 	a := "module a { namespace \"urn:a\"; prefix a; import y { prefix yy; } import b { prefix b; } include as;\n leaf tgt_p1 { type string; } leaf tgt_p2 { type string; }\n " + p.tdsAt("A0") +
@@ -171,6 +176,10 @@ func (p *prog) texts() map[string]string {
 	b := "module b { namespace \"urn:b\"; prefix b; include bs;\n " + p.tdsAt("B0") + "\n}\n"
 	bs := "submodule bs { belongs-to b { prefix b; }\n " + p.tdsAt("BS0") + "\n}\n"
 	y := "module y { namespace \"urn:y\"; prefix b;\n typedef t { type string; units \"DECOY-Y\"; } typedef u { type string; units \"DECOY-Y\"; }\n}\n"
+	if samePrefix {
+		b = strings.ReplaceAll(strings.Replace(b, "prefix b;", "prefix a;", 1), " b:", " a:")
+		bs = strings.ReplaceAll(strings.Replace(bs, "prefix b;", "prefix a;", 1), " b:", " a:")
+	}
 	return map[string]string{"a": a, "as": as, "b": b, "bs": bs, "y": y}
 }
 
@@ -233,6 +242,23 @@ func classify(kind byte, body []byte) string {
 }
 
 func exec(kind byte, body []byte) *core.Verdict {
+	samePrefix = false
+	v := exec1(kind, body)
+	if kind == 'B' || !v.OK || v.Infra != "" {
+		return v
+	}
+	samePrefix = true
+	v2 := exec1(kind, body)
+	samePrefix = false
+	if !v2.OK || v2.Infra != "" {
+		v2.Detail = "(module b declaring the same own prefix as module a) " + v2.Detail
+		return v2
+	}
+	v.N += v2.N
+	return v
+}
+
+func exec1(kind byte, body []byte) *core.Verdict {
 	if kind == 'B' {
 		return &core.Verdict{OK: true, Out: true}
 	}
@@ -334,4 +360,6 @@ func check(r *core.Run) {
 	for _, c := range cfgs {
 		r.DirectionA("types", core.TLCOpts{Module: "MCT_" + c, Cfg: "MCT_" + c + ".cfg", Workers: 12, Timeout: 0}, nil)
 	}
+	// what a name denotes may change between two runs over one set (a newer revision of the imported module arrives)
+	schema.SessionHistories(r, "C09", "bb-r2")
 }
